@@ -149,7 +149,8 @@ theorem FI_node_log (N : Nat) (links : List (Nat × List Tgt)) (ss : Nat → S) 
     (hx : LogExt g.log lg' k) (hown : ∀ id, id < g.next → aget lg'.owner id = aget g.log.owner id)
     (hlb : ∀ id, nx' ≤ id → Unlogged lg' id)
     (hsepN : ∀ m, m ≠ n0 → k ∉ unlIds (ss m)) (hsepS : ∀ j, k ∉ (getL g.sinks j).map (·.1))
-    (hreq : ∀ r ∈ s'.reqs, ReqOK lg' r) (hcur : CurOK lg' n0 s'.cur) (hinb : ∀ p ∈ s'.inbox, Unlogged lg' p.id) :
+    (hreq : ∀ r ∈ s'.reqs, ReqOK lg' r) (hcur : CurOK lg' n0 s'.cur) (hinb : ∀ p ∈ s'.inbox, Unlogged lg' p.id)
+    (hordk : OrdAt lg' k nx') :
     FI N links (upd ss n0 s') D { g with nodes := setNode g.nodes n0 nd', log := lg', next := nx' } := by
   have hn0N : n0 < N := (h.nodesLen n0).mp (by rw [hn0]; rfl)
   have hbound : ∀ m nd, getNode g.nodes m = some nd → ∀ x ∈ allIds (ss m), x < g.next :=
@@ -167,7 +168,7 @@ theorem FI_node_log (N : Nat) (links : List (Nat × List Tgt)) (ss : Nat → S) 
            rel := rel_upd g ss n0 nd0 nd' s' nx' h.rel hn0 hr hle, dflt := ?_, reqsOK := ?_, curOK := ?_,
            inboxOK := ?_, ownNode := ?_, sinkOK := ?_, debtOK := ?_, wkN := ?_, wkS := ?_, respOK := ?_,
            nofeed := ?_, logBound := hlb, rootsB := fun r hr' => Nat.lt_of_lt_of_le (h.rootsB r hr') hle,
-           wq0 := h.wq0 }
+           wq0 := h.wq0, logOrd := logOrd_ext g.log lg' k g.next nx' h.logOrd hx hle hordk }
   · intro n hn
     have : n ≠ n0 := by omega
     simp only [upd, this, if_false]; exact h.dflt n hn
@@ -227,7 +228,7 @@ theorem FI_congr (N : Nat) (links : List (Nat × List Tgt)) (ss : Nat → S) (D 
     (h : FI N links ss D g) (e1 : g'.links = g.links) (e2 : g'.nodes = g.nodes) (e3 : g'.next = g.next)
     (e4 : g'.log = g.log) (e5 : g'.sinks = g.sinks) (e6 : g'.writers = g.writers) (e7 : g'.fifo = g.fifo)
     (e8 : g'.roots = g.roots) (e9 : g'.resp = g.resp) : FI N links ss D g' := by
-  obtain ⟨a1, a2, a3, a4, a5, a6, a7, a8, a9, a10, a11, a12, a13, a14, a15, a16, a17⟩ := h
+  obtain ⟨a1, a2, a3, a4, a5, a6, a7, a8, a9, a10, a11, a12, a13, a14, a15, a16, a17, a18⟩ := h
   constructor
   · rw [e1]; exact a1
   · rw [e2]; exact a2
@@ -246,6 +247,7 @@ theorem FI_congr (N : Nat) (links : List (Nat × List Tgt)) (ss : Nat → S) (D 
   · rw [e4, e3]; exact a15
   · rw [e3, e8]; exact a16
   · rw [e6]; exact a17
+  · rw [e4, e3]; exact a18
 
 theorem live_lt (N : Nat) (links : List (Nat × List Tgt)) (ss : Nat → S) (D : Nat → List (Pid × Ans)) (g : G)
     (h : FI N links ss D g) (m : Nat) : ∀ x ∈ allIds (ss m), x < g.next := by
